@@ -192,6 +192,20 @@ func genSearchScenario(rng *rand.Rand, profile string, thorough bool) *SearchSce
 		}
 		return sc
 	case "c08":
+		if rng.IntN(60) == 0 {
+			// a search with very many live moves (several queens, deep), then a
+			// Clear, then the same search again next to a brand-new engine: scratch
+			// structures that grew during the first search must not matter
+			sc.StartFEN, sc.Prefix = pick(rng, []string{
+				"1q1q1rk1/q4ppp/8/8/8/8/Q4PPP/1Q1Q1RK1 w - - 0 1",
+				"q2q2k1/1q3ppp/8/8/8/8/1Q3PPP/Q2Q2K1 b - - 0 1",
+				"3qk3/1q1q4/8/8/8/8/1Q1Q4/3QK3 w - - 0 1",
+			}), nil
+			sc.TTBytes, sc.Twins, sc.Style = 4<<20, 1, "fresh"
+			req := Request{Limits: Limits{Nodes: -1, Depth: 14 + rng.IntN(4), SoftNodes: 500_000}, StopAtPoll: -1, Output: true}
+			sc.Steps = []SearchStep{{Req: req, Play: ""}, {Req: req, Play: "", Clear: true}}
+			return sc
+		}
 		if rng.IntN(10) == 0 {
 			// the hard budget around pondering: while the engine ponders the budget
 			// is suspended, from the ponderhit on it binds (no twins: a ponder
